@@ -580,9 +580,14 @@ def inline_private_calls(repo, cls, fn, depth=2, only=None, _seen=(), helper_tra
     counter = itertools.count(1)
 
     def helper_of(call):
-        if not (isinstance(call, ast.Call) and isinstance(call.func, ast.Attribute) and isinstance(call.func.value, ast.Name) and call.func.value.id == "self"):
+        if not (isinstance(call, ast.Call) and isinstance(call.func, ast.Attribute) and isinstance(call.func.value, ast.Name) and call.func.value.id in ("self", "cls", cls.name)):
             return None
         name = call.func.attr
+        if call.func.value.id != "self":
+            # Class._helper(...) / cls._helper(...): only static helpers (no receiver to bind)
+            k0, h0 = repo.find_method(cls, name)
+            if h0 is None or not any(isinstance(d, ast.Name) and d.id in ("staticmethod", "classmethod") for d in h0.decorator_list):
+                return None
         if not name.startswith("_") or name.startswith("__") or name in _seen or (only is not None and not only(name)):
             return None
         k, h = repo.find_method(cls, name)
@@ -592,7 +597,7 @@ def inline_private_calls(repo, cls, fn, depth=2, only=None, _seen=(), helper_tra
             h = helper_transform(h)
         a = h.args
         if a.vararg or a.kwarg or a.kwonlyargs or any(isinstance(d, ast.Name) and d.id in ("staticmethod", "classmethod", "property") for d in h.decorator_list):
-            if any(isinstance(d, ast.Name) and d.id == "staticmethod" for d in h.decorator_list) and not (a.vararg or a.kwarg or a.kwonlyargs):
+            if any(isinstance(d, ast.Name) and d.id in ("staticmethod", "classmethod") for d in h.decorator_list) and not (a.vararg or a.kwarg or a.kwonlyargs):
                 pass
             else:
                 return None
@@ -610,8 +615,11 @@ def inline_private_calls(repo, cls, fn, depth=2, only=None, _seen=(), helper_tra
     def bind(h, call, prefix):
         """-> (prelude assignments, rename map) or None"""
         static = any(isinstance(d, ast.Name) and d.id == "staticmethod" for d in h.decorator_list)
+        clsm = any(isinstance(d, ast.Name) and d.id == "classmethod" for d in h.decorator_list)
         params = [p.arg for p in h.args.args]
+        recv_param = None
         if not static:
+            recv_param = params[0] if params else None
             params = params[1:]
         defaults = dict(zip(params[len(params) - len(h.args.defaults):], h.args.defaults))
         given = dict(zip(params, call.args))
@@ -625,11 +633,21 @@ def inline_private_calls(repo, cls, fn, depth=2, only=None, _seen=(), helper_tra
                 for t in ast.walk(x) if isinstance(t, ast.Name) and isinstance(t.ctx, ast.Store)}
         locs |= {x.name for st in h.body for x in ast.walk(st) if isinstance(x, ast.ExceptHandler) and x.name}
         ren = {n: prefix + n for n in set(params) | locs}
+        if recv_param is not None and recv_param not in locs:
+            # the receiver: `self` stays `self`; the `cls` of a classmethod reached through self / the class name becomes that
+            rv = call.func.value
+            if recv_param != (rv.id if isinstance(rv, ast.Name) else None):
+                ren[recv_param] = copy.deepcopy(rv)
         pre = []
         for p_ in params:
             v = given.get(p_, defaults.get(p_))
             if v is None:
                 return None
+            if isinstance(v, (ast.Name, ast.Constant)) and p_ not in locs:
+                # a plain name / constant passed for a parameter the helper never rebinds: used as it is (no alias), so
+                # that rules which follow a variable see the same variable inside the inlined body
+                ren[p_] = copy.deepcopy(v)
+                continue
             pre.append(ast.Assign(targets=[ast.Name(id=ren[p_], ctx=ast.Store())], value=copy.deepcopy(v)))
         return pre, ren
 
@@ -639,12 +657,15 @@ def inline_private_calls(repo, cls, fn, depth=2, only=None, _seen=(), helper_tra
 
         def visit_Name(self, node):
             if node.id in self.ren:
-                return ast.copy_location(ast.Name(id=self.ren[node.id], ctx=node.ctx), node)
+                r_ = self.ren[node.id]
+                if isinstance(r_, ast.AST):
+                    return ast.copy_location(copy.deepcopy(r_), node)
+                return ast.copy_location(ast.Name(id=r_, ctx=node.ctx), node)
             return node
 
         def visit_ExceptHandler(self, node):
             self.generic_visit(node)
-            if node.name in self.ren:
+            if node.name in self.ren and isinstance(self.ren[node.name], str):
                 node.name = self.ren[node.name]
             return node
 
@@ -772,12 +793,13 @@ def inline_private_calls(repo, cls, fn, depth=2, only=None, _seen=(), helper_tra
                     pre, ren = b
                     # substitute parameters by the argument expressions directly
                     amap = {t.targets[0].id: t.value for t in pre}
-                    ren_back = {v: k for k, v in ren.items()}
 
                     class Arg(ast.NodeTransformer):
                         def visit_Name(self, n):
                             key = ren.get(n.id)
-                            if key in amap and isinstance(n.ctx, ast.Load):
+                            if isinstance(key, ast.AST) and isinstance(n.ctx, ast.Load):
+                                return copy.deepcopy(key)
+                            if isinstance(key, str) and key in amap and isinstance(n.ctx, ast.Load):
                                 return copy.deepcopy(amap[key])
                             return n
                     changed[0] = True
